@@ -5,7 +5,7 @@ BinaryMappingVariables: identifiers of element i are the bitlength consecutive i
 """
 V = 'cnfgen/formula/variables.py'
 
-BM_INV = ['self.domain_size >= 1', 'self.range_size >= 1', 'self.bitlength >= 0', 'self.id_offset >= 0',
+BM_INV = ['self.domain_size >= 0', 'self.range_size >= 0', 'self.bitlength >= 0', 'self.id_offset >= 0',
           'self.ids_lo == self.id_offset + 1', 'self.ids_hi == self.id_offset + self.domain_size * self.bitlength + 1']
 
 CLASSMODELS = {
